@@ -16,7 +16,8 @@ from harness import common as C
 RULE = ('transform cases: every shape in {1..9}^2 (all parity pairs, square and not) several times plus a few up to 24x17, '
         'each with Q from {1,2,3,1.5,2.37,0.8,(1.7,2.3),(2,1)}, output sizes 1..10 per axis (every parity, smaller and larger '
         'than the input), shift from {0,+-1,+-2.5,(1.5,-2.25),(0,1)}, direction fwd/inv, input dtype from {complex128, float64, '
-        'complex64, float32, int64, bool}, config.precision 64 (85%) / 32 (15%); methods mdft and czt both run on every case; '
+        'complex64, float32, int64, bool}, config.precision 64 (85%) / 32 (15%), 40% of the cases pass Q / samples_out / shift as '
+        'list, ndarray or scalar instead of tuples; methods mdft and czt both run on every case; '
         'FFT-route cases: focus/unfocus for shapes x Q in {1,2,3,1.5,2.37,1.2}; basis cases: _prepare_czt_basis for all '
         '(n,M) up to the tier bound; histories: random sequences (<= 40 ops) of dft2/idft2/czt2/iczt2 calls over a pool of '
         'repeated keys, clear(), precision switches, each result compared with a fresh executor.  Non-trivial = not 1x1->1x1; '
@@ -155,9 +156,41 @@ def spec2_numpy(f, Q, MN, shift, sign):
     return (Ey @ f.astype(complex) @ Ex) / np.sqrt(m * Qy * n * Qx)
 
 
-def call_impl(method, direction, f, Q, MN, shift, fresh=False):
+def apply_forms(Q, MN, shift, forms):
+    """the documented argument forms: scalars, tuples, lists, arrays ("int or Iterable", "scalar or per-axis")"""
+    if not forms:
+        return Q, MN, shift
+
+    def conv(x, how):
+        if how == 'list':
+            return list(x)
+        if how == 'array':
+            return np.asarray(x)
+        if how == 'scalar':
+            return x[0]
+        return tuple(x)
+    fq, fs, fh = forms.get('Q', 'asis'), forms.get('samples', 'tuple'), forms.get('shift', 'tuple')
+    if fq != 'asis' and isinstance(Q, tuple):
+        Q = conv(Q, fq)
+    if fs == 'scalar' and MN[0] != MN[1]:
+        fs = 'tuple'
+    if fh == 'scalar' and shift[0] != shift[1]:
+        fh = 'tuple'
+    return Q, conv(MN, fs), conv(shift, fh)
+
+
+def gen_forms(r):
+    if r.random() < 0.6:
+        return None
+    return {'Q': ['asis', 'list', 'array'][int(r.integers(3))],
+            'samples': ['tuple', 'list', 'array', 'scalar'][int(r.integers(4))],
+            'shift': ['tuple', 'list', 'array', 'scalar'][int(r.integers(4))]}
+
+
+def call_impl(method, direction, f, Q, MN, shift, fresh=False, forms=None):
     """run the real transform; returns ndarray or raises"""
     ft, pr, config = _impl()
+    Q, MN, shift = apply_forms(Q, MN, shift, forms)
     if method == 'mdft':
         ex = ft.MatrixDFTExecutor() if fresh else ft.mdft
         fn = ex.dft2 if direction < 0 else ex.idft2
@@ -197,8 +230,12 @@ def transform_case(ctx_rng, shape, big=False):
     dtype = DTYPES[int(r.choice(len(DTYPES), p=[0.35, 0.25, 0.1, 0.1, 0.1, 0.1]))]
     direction = -1 if r.random() < 0.5 else 1
     precision = 32 if r.random() < 0.15 else 64
-    return {'shape': [m, n], 'Q': list(Q) if isinstance(Q, tuple) else Q, 'samples': [M, N], 'shift': list(shift),
-            'dir': direction, 'dtype': dtype, 'precision': precision, 'seed': int(r.integers(1 << 30))}
+    c = {'shape': [m, n], 'Q': list(Q) if isinstance(Q, tuple) else Q, 'samples': [M, N], 'shift': list(shift),
+         'dir': direction, 'dtype': dtype, 'precision': precision, 'seed': int(r.integers(1 << 30))}
+    forms = gen_forms(r)
+    if forms:
+        c['forms'] = forms
+    return c
 
 
 def case_args(c):
@@ -282,7 +319,7 @@ def _transforms(ctx, ft, pr, config):
                 if _is_known(ctx, cc):
                     continue
                 try:
-                    out = call_impl(method, c['dir'], f, Q, (M, N), shift)
+                    out = call_impl(method, c['dir'], f, Q, (M, N), shift, forms=c.get('forms'))
                 except Exception as ex:
                     ctx.disagree('transform', cc, f'raised {type(ex).__name__}: {str(ex)[:120]}', 'model returns an array')
                     ctx.pred_fail('transform', cc, f'{method} raised {type(ex).__name__}: {str(ex)[:160]}')
@@ -579,7 +616,7 @@ def check_transform(c, verbose=False):
     config.precision = c.get('precision', 64)
     try:
         try:
-            out = call_impl(c['method'], c['dir'], f, Q, (M, N), shift, fresh=True)
+            out = call_impl(c['method'], c['dir'], f, Q, (M, N), shift, fresh=True, forms=c.get('forms'))
         except Exception as ex:
             if verbose:
                 print(f'  {c["method"]} raised {type(ex).__name__}: {ex}')
@@ -687,7 +724,7 @@ def _shrink(c):
             return not check_transform(x)[0]
         except Exception:
             return False
-    for key, simple in (('dtype', 'complex128'), ('precision', 64), ('shift', [0, 0]), ('Q', 1), ('dir', -1)):
+    for key, simple in (('forms', None), ('dtype', 'complex128'), ('precision', 64), ('shift', [0, 0]), ('Q', 1), ('dir', -1)):
         t = dict(best, **{key: simple})
         if t != best and fails(t):
             best = t
